@@ -396,6 +396,22 @@ func (w *world) generate(r *hx.Rng, pre ostate) gtx {
 	case k < 45:
 		id := w.pickId(r, pre, true)
 		delta := []uint64{0, 1, 100, 400, 1601, 5000, 999999, 37}[r.Intn(8)]
+		// top-ups around the minimum stake (an aborted miner turns normal only ABOVE the minimum)
+		var low []mrec
+		for _, m := range pre.miners {
+			if m.Stake <= []uint64{400, 2000}[m.K] {
+				low = append(low, m)
+			}
+		}
+		if len(low) > 0 && r.Intn(2) == 0 {
+			m := low[r.Intn(len(low))]
+			id = m.I
+			gap := []uint64{400, 2000}[m.K] - m.Stake
+			delta = gap + uint64(r.Intn(3))
+			if delta > 0 && r.Intn(3) == 0 {
+				delta--
+			}
+		}
 		md, _ := json.Marshal(types.Miner{Id: w.ids[id-1], Stake: delta})
 		jsonOK := true
 		data := string(md)
@@ -429,7 +445,13 @@ func (w *world) generate(r *hx.Rng, pre ostate) gtx {
 		}
 		amts := []string{"0", "1", "100", "400", "399", "2000", "18446744073709551615", "99999", "abc", "-1", "1.5", "18446744073709551616", ""}
 		amt := amts[r.Intn(len(amts))]
-		switch r.Intn(6) {
+		switch r.Intn(8) {
+		case 6:
+			amt = strconv.FormatUint(stake+1, 10) // one more than the stake
+		case 7:
+			if stake > 0 {
+				amt = strconv.FormatUint(stake-1, 10)
+			}
 		case 0:
 			amt = strconv.FormatUint(stake, 10)
 		case 1:
@@ -613,6 +635,21 @@ func (w *world) step(r *hx.Rng, res *hx.Result, cs *hx.Cases) {
 			return acct
 		}()))
 		n -= 2
+	}
+	if r.Intn(15) == 0 {
+		// every sender that holds a miner asks for a refund in the same block
+		for _, m := range pre.miners {
+			for _, sdr := range w.senders {
+				if m.Acct == sdr {
+					amt := []string{"1", "18446744073709551615", strconv.FormatUint(m.Stake/2, 10)}[r.Intn(3)]
+					data, _ := json.Marshal(map[string]string{"Amount": amt, "MinerId": common.ToHex(w.ids[m.I-1])})
+					val, _ := strconv.ParseUint(amt, 10, 64)
+					g = append(g, gtx{kind: "refund", src: sdr, tx: newTx(types.TransactionTypeMinerRefund, w.srcHex(sdr), string(data)), id: m.I, amt: amt,
+						term: fmt.Sprintf("TRefund %d%%N true %s %d%%N", sdr, optN(true, val), m.I),
+						desc: map[string]interface{}{"tx": "refund", "src": sdr, "id": m.I, "amount": amt, "json": true}})
+				}
+			}
+		}
 	}
 	for i := 0; i < n; i++ {
 		g = append(g, w.generate(r, pre))
@@ -816,7 +853,11 @@ func (w *world) step(r *hx.Rng, res *hx.Result, cs *hx.Cases) {
 
 	class := strings.Join(uniq(classes), " ")
 	ident := fmt.Sprintf("%s|%v|n%d|c%v", strings.Join(classes, ","), kinds, len(pre.miners), credited)
-	res.Count("block["+strconv.Itoa(len(g))+"]", ident, reached)
+	nb := len(g)
+	if nb > 6 {
+		nb = 6
+	}
+	res.Count("block["+strconv.Itoa(nb)+"]", ident, reached)
 	_ = class
 	if reached && len(pre.miners) > 0 {
 		res.Sample(input)
